@@ -45,8 +45,6 @@ fn main() {
         eprintln!("unknown property {prop}");
         std::process::exit(2);
     };
-    let engine = (spec.engine)();
-
     // silence panic messages from expected panics inside cases
     if std::env::var("VERIF_DEBUG").is_ok() {
         std::panic::set_hook(Box::new(|i| {
@@ -62,8 +60,21 @@ fn main() {
     bsv::crash::install(&prop, crash_path.to_str().unwrap());
 
     if let Some(path) = replay {
-        let fails = runner::replay_file(engine.as_ref(), &prop, &path, true);
-        if fails.is_empty() {
+        // the file name tells the stage: <prop>-<seed>-<profile>-s<stage>-<n>.case; try all stages otherwise
+        let mut any = false;
+        for (si, st) in spec.stages.iter().enumerate() {
+            let tag = format!("-s{si}-");
+            let name = path.file_name().map(|n| n.to_string_lossy().to_string()).unwrap_or_default();
+            if name.contains("-s") && !name.contains(&tag) && spec.stages.len() > 1 && name.matches("-s").count() > 0 && (0..spec.stages.len()).any(|k| name.contains(&format!("-s{k}-"))) {
+                continue;
+            }
+            let engine = (st.engine)();
+            let fails = runner::replay_file(engine.as_ref(), &prop, &path, true);
+            if !fails.is_empty() {
+                any = true;
+            }
+        }
+        if !any {
             println!("replay {}: property {prop} held", path.display());
             std::process::exit(0);
         }
@@ -72,34 +83,79 @@ fn main() {
     }
 
     let thorough = tier == "thorough";
-    let cases = cases_override.unwrap_or(if thorough { spec.thorough_cases } else { spec.quick_cases });
     bsv::crash::watchdog(if thorough { spec.thorough_budget_s } else { spec.quick_budget_s });
-    let cfg = RunConfig { prop: prop.clone(), tier: tier.clone(), seed, cases, threads, profile };
-    let out = runner::run(engine.as_ref(), &cfg);
+    let mut evaluations = 0u64;
+    let mut distinct = 0u64;
+    let mut ops_total = 0u64;
+    let mut nops_total = 0u64;
+    let mut classes: std::collections::BTreeMap<String, u64> = Default::default();
+    let mut counters: std::collections::BTreeMap<String, u64> = Default::default();
+    let mut foreign: std::collections::BTreeMap<String, u64> = Default::default();
+    let mut samples: Vec<String> = Vec::new();
+    let mut violations: Vec<(String, PathBuf)> = Vec::new();
+    let mut health: Vec<String> = Vec::new();
+    let mut rules: Vec<String> = Vec::new();
+    let mut assumptions: Vec<String> = Vec::new();
+    let mut names: Vec<String> = Vec::new();
+    let mut wall = 0.0f64;
+    let nst = spec.stages.len();
+    for (si, st) in spec.stages.iter().enumerate() {
+        let engine = (st.engine)();
+        let cases = cases_override.unwrap_or(if thorough { st.thorough_cases } else { st.quick_cases });
+        let cfg = RunConfig { prop: prop.clone(), tier: tier.clone(), seed, cases, threads, profile, stage: si };
+        let out = runner::run(engine.as_ref(), &cfg);
+        evaluations += out.evaluations;
+        distinct += out.distinct_nontrivial;
+        ops_total += out.ops_total;
+        nops_total += out.nops_total;
+        let pre = if nst > 1 { format!("{}:", engine.name()) } else { String::new() };
+        for (k, v) in out.classes {
+            *classes.entry(format!("{pre}{k}")).or_default() += v;
+        }
+        for (k, v) in out.counters {
+            *counters.entry(format!("{pre}{k}")).or_default() += v;
+        }
+        for (k, v) in out.foreign {
+            *foreign.entry(k).or_default() += v;
+        }
+        samples.extend(out.samples.into_iter().take(4));
+        violations.extend(out.violations);
+        health.extend(out.health_failures);
+        rules.push(if nst > 1 { format!("[{}] {}", engine.name(), engine.rule()) } else { engine.rule() });
+        for a in engine.assumptions() {
+            if !assumptions.contains(&a) {
+                assumptions.push(a);
+            }
+        }
+        names.push(engine.name().to_string());
+        wall += out.wall_s;
+        if !violations.is_empty() {
+            break;
+        }
+    }
 
     let mut extra = std::collections::BTreeMap::new();
-    extra.insert("ops_total".to_string(), json!(out.ops_total));
-    extra.insert("nop_records".to_string(), json!(out.nops_total));
+    extra.insert("ops_total".to_string(), json!(ops_total));
+    extra.insert("nop_records".to_string(), json!(nops_total));
     extra.insert("profile".to_string(), json!(profile));
-    extra.insert("engine".to_string(), json!(engine.name()));
-    extra.insert("counters".to_string(), json!(out.counters));
-    extra.insert("foreign_failures".to_string(), json!(out.foreign));
-    extra.insert("generator_health_failures".to_string(), json!(out.health_failures));
+    extra.insert("engine".to_string(), json!(names.join(" + ")));
+    extra.insert("counters".to_string(), json!(counters));
+    extra.insert("foreign_failures".to_string(), json!(foreign));
+    extra.insert("generator_health_failures".to_string(), json!(health));
     extra.insert("threads".to_string(), json!(threads));
-    // Partial evidence for this profile; the ./check driver merges profiles.
     let ev = Evidence {
         property_id: prop.clone(),
         tier: if thorough { "thorough".into() } else { "quick".into() },
         seed,
-        evaluations: out.evaluations,
-        distinct_nontrivial: out.distinct_nontrivial,
-        rule: engine.rule(),
-        samples: out.samples.iter().map(|s| json!(s)).collect(),
-        classes: out.classes.clone(),
+        evaluations,
+        distinct_nontrivial: distinct,
+        rule: rules.join(" || "),
+        samples: samples.iter().map(|s| json!(s)).collect(),
+        classes,
         extra,
-        assumptions: engine.assumptions(),
-        wall_s: out.wall_s,
-        violations: out.violations.len() as u64,
+        assumptions,
+        wall_s: wall,
+        violations: violations.len() as u64,
         exhaustive: None,
     };
     let part = std::env::var("VERIF_EVIDENCE_PART").ok();
@@ -111,23 +167,23 @@ fn main() {
             ev.write().expect("write evidence");
         }
     }
-    for (msg, path) in &out.violations {
+    for (msg, path) in &violations {
         println!("oracle: {msg}");
         println!("VIOLATION property={prop} replay={}", path.display());
     }
     runner::flush();
-    if !out.violations.is_empty() {
+    if !violations.is_empty() {
         std::process::exit(1);
     }
-    if !out.health_failures.is_empty() {
-        for h in &out.health_failures {
+    if !health.is_empty() {
+        for h in &health {
             eprintln!("generator self-check failed: {h}");
         }
         std::process::exit(2);
     }
     println!(
         "{prop} {tier} [{profile}]: {} cases, {} distinct non-trivial, {:.1}s, no violation",
-        out.evaluations, out.distinct_nontrivial, out.wall_s
+        evaluations, distinct, wall
     );
     std::process::exit(0);
 }
